@@ -292,6 +292,12 @@ func (ef *Filter) Process(ctx context.Context, e *eventlogger.Event) (*eventlogg
 		if err := ef.filterField(ctx, payloadValue, filterOverrides, tm, opts...); err != nil {
 			return nil, fmt.Errorf("%s: %w", op, err)
 		}
+	case pKind == reflect.Map:
+		// a map that doesn't implement Taggable: all of its fields will be
+		// filtered as secret data when the tracked maps are processed below.
+		if err := tm.trackMap(&tMap{value: payloadValue}); err != nil {
+			return nil, fmt.Errorf("%s: %w", op, err)
+		}
 	}
 
 	if err := tm.processUnfiltered(ctx, ef, filterOverrides, opts...); err != nil {
